@@ -1303,6 +1303,9 @@ pub fn parse_chunk_size(buf: &[u8])
                 size *= RADIX;
                 size += (b + 10 - b'A') as u64;
             }
+            // The chunk size must start with at least one hex digit: a line end,
+            // extension or whitespace before any digit is not a size of zero.
+            b'\r' | b';' | b'\t' | b' ' if in_chunk_size && count == 0 => return Err(InvalidChunkSize),
             b'\r' => {
                 match next!(bytes) {
                     b'\n' => break,
